@@ -1570,7 +1570,15 @@ class Connection(object):
                 callback(self, ConnectionShutdown(
                     "Connection to %s is %s" % (self.endpoint, "defunct" if self.is_defunct else "closed")))
             else:
-                self.create_timer(0.001, partial(self.set_keyspace_async, keyspace, callback))
+                def try_again():
+                    try:
+                        self.set_keyspace_async(keyspace, callback)
+                    except (ConnectionException, ConnectionBusy) as exc:
+                        # nobody is up the stack of a timer to see this (the connection was
+                        # closed meanwhile); in_flight has been incremented at this point
+                        callback(self, exc)
+
+                self.create_timer(0.001, try_again)
             return
 
         if not keyspace or keyspace == self.keyspace:
